@@ -10,6 +10,7 @@ import (
 	"io"
 	"net/http"
 	"net/url"
+	"sort"
 	"strings"
 	"time"
 
@@ -367,7 +368,23 @@ func (rs *s3ClientStorage) ListObjectVersions(ctx context.Context, bucketName st
 		versions = append(versions, storage.ObjectVersion{Key: storage.MustNewObjectKey(*marker.Key), VersionID: *marker.VersionId, IsDeleteMarker: true, IsLatest: aws.ToBool(marker.IsLatest), LastModified: *marker.LastModified})
 	}
 
-	return &storage.ListObjectVersionsResult{Versions: versions, IsTruncated: aws.ToBool(result.IsTruncated), NextKeyMarker: result.NextKeyMarker, NextVersionIDMarker: result.NextVersionIdMarker}, nil
+	// the SDK splits versions and delete markers into two lists: restore the
+	// listing order (key ascending, version id descending with "null" last)
+	sort.SliceStable(versions, func(i, j int) bool {
+		if versions[i].Key.String() != versions[j].Key.String() {
+			return versions[i].Key.String() < versions[j].Key.String()
+		}
+		vi, vj := versions[i].VersionID, versions[j].VersionID
+		if vi == "null" || vj == "null" {
+			return vi != "null" && vj == "null"
+		}
+		return vi > vj
+	})
+	commonPrefixes := make([]string, 0, len(result.CommonPrefixes))
+	for _, commonPrefix := range result.CommonPrefixes {
+		commonPrefixes = append(commonPrefixes, aws.ToString(commonPrefix.Prefix))
+	}
+	return &storage.ListObjectVersionsResult{CommonPrefixes: commonPrefixes, Versions: versions, IsTruncated: aws.ToBool(result.IsTruncated), NextKeyMarker: result.NextKeyMarker, NextVersionIDMarker: result.NextVersionIdMarker}, nil
 }
 
 func (rs *s3ClientStorage) HeadObject(ctx context.Context, bucketName storage.BucketName, key storage.ObjectKey, opts *storage.HeadObjectOptions) (*storage.Object, error) {
